@@ -464,8 +464,13 @@ def prop_c02(k, bs, cs, es, ephs):
     key, comps = unhx(k), b3.parse_comps(cs)
     wencs = parse_encs(es)
     try:
+        block_objs = parse_blocks(bs)
+        if key[0] & 1:
+            # the same block objects have already been used for another file with another session key
+            with Oracle([(n % (2 ** 255)) + 1 for n in parse_nats(ephs)]):
+                Bec2File(Bf3File({}, []), block_objs, bytes(b ^ 0x5A for b in key)).to_binary(wencs)
         with Oracle(parse_nats(ephs)):
-            f0 = Bec2File(Bf3File({}, b3.parse_comps(cs)), parse_blocks(bs), key)
+            f0 = Bec2File(Bf3File({}, b3.parse_comps(cs)), block_objs, key)
             s = io.StringIO()
             f0.write_file(s, wencs)
             text = s.getvalue()
